@@ -90,7 +90,9 @@ def run(ctx):
                         acc.append((kind, case))
 
     def smallest(cases):
-        return min(cases, key=lambda kc: len(json.dumps(kc[1])))
+        # prefer the plainest witness: verification on, a valid origin, IPv4 literal
+        return min(cases, key=lambda kc: (bool(kc[1].get("insecure")), kc[1].get("origin", "valid") != "valid",
+                                          kc[1].get("host", "127.0.0.1") != "127.0.0.1", len(json.dumps(kc[1]))))
 
     for kind, (_, label) in KINDS.items():
         pb = [kc for kc in prop_bad if kc[0] == kind]
